@@ -478,6 +478,7 @@ type Exec struct {
 	cur      *checkEnv
 	pendingAx []*Axiom
 	releasing bool
+	ufApps   map[string][][]Term
 	matSeq   map[string]*SeqV
 	iteDefs  map[string][3]Term // merged constant -> (cond, then, else)
 	closures map[*ssa.MakeClosure]bool
@@ -690,24 +691,36 @@ func (x *Exec) minBirth(ref string, depth int) (int, bool) {
 // rowOf reads the backing row of ref in element memory M, looking through stores to objects
 // that were born after every symbol of ref existed (they cannot be the same object).
 func (x *Exec) rowOf(M Term, ref Term) Term {
-	cur := M.S
-	older := maxIndex(ref.S)
+	base := x.skipStores(M.S, maxIndex(ref.S), 0)
+	return x.ctx.Name("row", Select(Term{S: base, Sort: M.Sort}, ref))
+}
+
+// skipStores strips stores to objects born after `older` and merges of memories that agree.
+func (x *Exec) skipStores(cur string, older int, depth int) string {
 	for i := 0; i < 64; i++ {
 		def := cur
 		if d, ok := x.ctx.defs[cur]; ok {
 			def = d
 		}
-		a := splitApp(def, "store")
-		if len(a) != 3 {
-			break
+		if a := splitApp(def, "store"); len(a) == 3 {
+			b, ok := x.minBirth(a[1], 0)
+			if !ok || older >= b {
+				return cur
+			}
+			cur = a[0]
+			continue
 		}
-		b, ok := x.minBirth(a[1], 0)
-		if !ok || older >= b {
-			break
+		if a := splitApp(def, "ite"); len(a) == 3 && depth < 6 {
+			l := x.skipStores(a[1], older, depth+1)
+			r := x.skipStores(a[2], older, depth+1)
+			if l == r {
+				cur = l
+				continue
+			}
 		}
-		cur = a[0]
+		return cur
 	}
-	return x.ctx.Name("row", Select(Term{S: cur, Sort: M.Sort}, ref))
+	return cur
 }
 
 // resolve a pointer: returns the type of the addressed location and accessors.
